@@ -56,3 +56,12 @@ PROPS["C09"] = {
     "suites": [("hist", 800, 20000), ("reader", 600, 12000)],
     "assumptions": ["event values are in range (isotope/map below 1000, ring number below 100): guaranteed by the feature types' constructors (C18)"],
 }
+
+PROPS["C06"] = {
+    "deps": ["Proofs/C06.vo"],
+    "props": "Props/C06.v",
+    "probes": [{"file": "Probes/Token.v", "filter": lambda name: name.startswith("C06.")}],
+    "suites": [("reader", 800, 20000), ("walk", 600, 12000), ("hist", 500, 10000), ("atom", 300, 6000), ("pool", 200, 2000)],
+    "assumptions": ["panics are compared by site through the panic message (harness catch_unwind); the harness is built with overflow checks and debug assertions on",
+                    "process abort by stack exhaustion is C19's subject; memory exhaustion is not modelled"],
+}
